@@ -217,6 +217,30 @@ Proof.
   unfold Values.returns, pyop, FUEL. cbn [binop dispatch fxp_dunder']. apply wp_bind.
   eapply wp_mono; [|apply (fxp_div_value ins ig c (binop c 11) s sg f g o' I)]. intros a s' sg' H. destruct a; try contradiction. cbn [ret wp is_fx]. exact H.
 Qed.
+(* // and % on two fixed-point numbers: floor division and modulo of the REPRESENTATIONS; the quotient (a whole number) is rescaled by 2^r,
+   the remainder keeps the scale: on the represented rationals A = a/2^r, B = b/2^r these are Python's A // B and A % B *)
+Ltac fxdm := unfold Values.returns, pyop, FUEL; cbn [binop dispatch fxp_dunder' fxp_dunder fxp_divmod add_scaling lc_divmod bind ret NI].
+Theorem op_fx_floordiv o o' f g : returns (pyop c OFloorDiv (PFxp o f) (PFxp o' g)) s sg (is_fx (fun r => r = (v f / v g) * Rz)).
+Proof.
+  fxdm. repeat apply wp_bind. apply divmod_wp; [exact I|]. intros [q r] s' sg' _ [Vq _].
+  cbn [ret wp bind mkfxp tuple_nth nth fst snd is_fx] in *. cbn [sval scale]. esimp. rewrite Vq. reflexivity.
+Qed.
+Theorem op_fx_mod o o' f g : returns (pyop c OMod (PFxp o f) (PFxp o' g)) s sg (is_fx (fun r => r = v f mod v g)).
+Proof.
+  fxdm. repeat apply wp_bind. apply divmod_wp; [exact I|]. intros [q r] s' sg' _ [_ Vr].
+  cbn [ret wp bind mkfxp tuple_nth nth fst snd is_fx] in *. exact Vr.
+Qed.
+(* by a public int k (standing for k * 2^r) *)
+Theorem op_fx_floordiv_int o f k : returns (pyop c OFloorDiv (PFxp o f) (PInt k)) s sg (is_fx (fun r => r = (v f / (k * Rz)) * Rz)).
+Proof.
+  fxdm. repeat apply wp_bind. apply divmod_wp; [exact I|]. intros [q r] s' sg' _ [Vq _].
+  cbn [ret wp bind mkfxp tuple_nth nth fst snd is_fx] in *. cbn [sval scale]. esimp. rewrite Vq. cbn [sval constv]. esimp. reflexivity.
+Qed.
+Theorem op_fx_mod_int o f k : returns (pyop c OMod (PFxp o f) (PInt k)) s sg (is_fx (fun r => r = v f mod (k * Rz))).
+Proof.
+  fxdm. repeat apply wp_bind. apply divmod_wp; [exact I|]. intros [q r] s' sg' _ [_ Vr].
+  cbn [ret wp bind mkfxp tuple_nth nth fst snd is_fx] in *. rewrite Vr. cbn [sval constv]. esimp. reflexivity.
+Qed.
 (* ---- secret booleans (LinCombBool): &, |, ^, ~ return the values of the boolean connectives on 0/1 values ---- *)
 Ltac bd := unfold Values.returns, pyop, FUEL; cbn [binop dispatch bool_dunder ensurebool bind ret same_class NI].
 Theorem op_bool_and o o' a b : returns (pyop c OAnd (PBool o a) (PBool o' b)) s sg (is_bool (fun r => r = v a * v b)).
